@@ -22,10 +22,8 @@ What is modelled
 * `Encoder.searchTable`, `shouldIndex`, `WriteField`, `SetMaxDynamicTableSize`,
   `SetMaxDynamicTableSizeLimit`, `appendVarInt`, `appendHpackString`, `appendIndexed`,
   `appendNewName`, `appendIndexedName`, `appendTableSize`, `encodeTypeByte`;
-* `AppendHuffmanString` is taken at the bit level (`Huffman.encode`, the specification C04 proves
-  the round trip for); C04's accumulator model `Huffman.appendHuffman` is compared with it and with
-  the Go code by C04's differential run, and this file's output is compared byte for byte with the
-  real encoder by C01's.
+* `AppendHuffmanString` is C04's accumulator model `Huffman.appendHuffman` (proved equal to the
+  bit-level `Huffman.encode` in `Proofs.C04.appendHuffman_eq_encode`).
 
 Not modelled: `io.Writer` errors / short writes; `uint64`/`uint32` wrap-around.
 -/
@@ -107,8 +105,8 @@ def appendVarInt (n : Nat) (flag : Nat) (i : Nat) : Bytes :=
   let k := 2 ^ n - 1
   if i < k then [flag + i] else (flag + k) :: varIntCont (i - k) (i - k)
 
-/-- `AppendHuffmanString(nil, s)` (bit-level; see the header). -/
-def huffBytes (s : Bytes) : Bytes := Huffman.encode s
+/-- `AppendHuffmanString(nil, s)`. -/
+def huffBytes (s : Bytes) : Bytes := Huffman.appendHuffman s
 
 /-- `appendHpackString(nil, s)`. -/
 def appendHpackString (s : Bytes) : Bytes :=
